@@ -116,6 +116,14 @@ class Coverage:
             len(self._coverage) + 0.1
         )
 
+    def has_gene_reads(self) -> bool:
+        """:returns: `True` if any read covers a gene or a pseudogene region
+        (reads between the gene and the pseudogene do not count)."""
+        return any(
+            self.gene.region_at(pos) is not None and self.total(pos) > 0
+            for pos in self._coverage
+        )
+
     def dump(self, out=None):
         """Pretty-print the coverage data."""
         for pos, pos_mut in sorted(self._coverage.items()):
